@@ -1752,6 +1752,8 @@ func (g *gen) genOp() {
 		g.toJSON(src)
 	case "wfault":
 		g.writerFaults(src)
+	case "tosql":
+		g.toSQL(src)
 	}
 }
 
